@@ -191,6 +191,13 @@ func (s *Server) Run(addr string, opt ...Option) error {
 				s.logger.Debug("accept on closed conn")
 				return nil
 			}
+			// a temporary failure (e.g. the process is out of file descriptors)
+			// must not stop the server: wait a little and try again
+			if ne, ok := err.(net.Error); ok && ne.Temporary() { //nolint:staticcheck
+				s.logger.Error("temporary error accepting conn; retrying", "op", op, "err", err.Error())
+				time.Sleep(20 * time.Millisecond)
+				continue
+			}
 			return fmt.Errorf("%s: error accepting conn: %w", op, err)
 		}
 		s.logger.Debug("new connection accepted", "op", op, "conn", connID)
